@@ -281,12 +281,17 @@ pub fn fault_alphabet(prop: &str, n: usize, len: usize) -> Vec<(Act, Vec<FaultKi
             for m in 0..=2 * n + 1 {
                 v.push((ExtendFromSlice(m), vec![K::Clone]));
                 v.push((Extend(m), vec![K::IterNext]));
+                v.push((ExtendHint(m, 0), vec![K::IterNext]));
+                v.push((ExtendHint(m, 2), vec![K::IterNext]));
             }
             v.push((Fill, vec![K::Clone]));
             v.push((FillSpare, vec![K::Clone]));
             v.push((FillWith, vec![K::Closure]));
             v.push((FillSpareWith, vec![K::Closure]));
             v.push((CloneBuf, vec![K::Clone]));
+            for s in Script::all_up_to(len.min(2)) {
+                v.push((IntoIterClone(s), vec![K::Clone]));
+            }
             v.push((ToVec, vec![K::Clone]));
             for m in 0..=n {
                 v.push((CloneFrom(m, 0), vec![K::Clone]));
@@ -439,6 +444,12 @@ pub fn ctor_fault_case<const N: usize>(prop: &str, ctor: Ctor, fault: Option<(Fa
                 ledger::begin_call();
                 Box::new(FaultyRange { next: 0, end: m }.collect::<Cb<N>>())
             }
+            Ctor::FromIterHint(m, hint) => {
+                let v: Vec<E> = (0..m).map(|j| E::with_tag(ledger::t_a(j))).collect();
+                let _ = ledger::take_events();
+                ledger::begin_call();
+                Box::new(FaultyIter { inner: v.into_iter(), hint, slack: 2 * N + 3 }.collect::<Cb<N>>())
+            }
             _ => unreachable!(),
         }
     }));
@@ -489,7 +500,11 @@ pub fn ctor_faults<const N: usize>(prop: &str, rep: &mut Report) {
                 cases.push((Ctor::FromArray(m), FaultKind::Drop));
                 cases.push((Ctor::FromIter(m), FaultKind::Drop));
             }
-            "C06" => cases.push((Ctor::FromIter(m), FaultKind::IterNext)),
+            "C06" => {
+                cases.push((Ctor::FromIter(m), FaultKind::IterNext));
+                cases.push((Ctor::FromIterHint(m, 0), FaultKind::IterNext));
+                cases.push((Ctor::FromIterHint(m, 2), FaultKind::IterNext));
+            }
             _ => {}
         }
     }
